@@ -120,6 +120,12 @@ func (c15) Run(c *mon.Ctx, i int) {
 		}
 		c.Count("zlib-streams-with-preset-dictionary", 1)
 	}
+	if kind == "gzip" && zdict == nil && i%6 == 1 {
+		// header CRC present: bytes only a hand-built member has
+		d = gen.Make(r, "text", r.Range(0, 1500))
+		cont = handBuiltGzipMember(r, d.B, r.Pick(1, 6))
+		c.Count("hand-built-gzip-members-with-header-crc", 1)
+	}
 	if kind == "gzip" && r.Chance(1, 3) {
 		// a second member: faults between and inside members of a multistream file
 		extra := gen.Make(r, "text", r.Range(0, 2000))
@@ -152,7 +158,7 @@ func (c15) Run(c *mon.Ctx, i int) {
 	errVals := []error{base, io.ErrClosedPipe, wrapErr{base}, io.ErrNoProgress, wrapErr{io.EOF}, fmt.Errorf("read tcp: %w", io.ErrUnexpectedEOF), wrapErr{io.EOF},
 		os.ErrDeadlineExceeded, timeoutErr{}, context.DeadlineExceeded}
 	baseDesc := map[string]interface{}{"reader": kind, "container": vs.Desc, "data": d.Desc, "container_len": len(cont), "container_sha": mon.Sha(cont)}
-	for _, k := range ks {
+	for kpos, k := range ks {
 		E := errVals[r.Intn(len(errVals))]
 		withData := r.Bool() && k > 0
 		chunk := r.Pick(1, 7, 100, 4096, 1<<20)
@@ -177,6 +183,56 @@ func (c15) Run(c *mon.Ctx, i int) {
 		var sticky, bad string
 		pv, st := mon.Safe(func() {
 			var rd io.Reader
+			viaReset := kpos%4 == 3 && zdict == nil
+			if viaReset {
+				// a Reader that was in the middle of another stream (or had failed on
+				// it) is Reset onto the failing source: the error of Reset is the
+				// first report, Reads after it must keep returning it
+				prevPlain := bytes.Repeat([]byte("earlier stream "), 3000)
+				var e error
+				switch kind {
+				case "flate":
+					f := c.API.NewFlateReader(bytes.NewReader(encodeStd(prevPlain, 6, nil)))
+					f.Read(make([]byte, 100))
+					e = f.Reset(in, nil)
+					rd = f
+				case "gzip":
+					z, _ := c.API.NewGzipReader(bytes.NewReader(encodeStdGzip(prevPlain, 6)))
+					z.Read(make([]byte, 100))
+					e = z.Reset(in)
+					rd = z
+				case "zlib":
+					z, _ := c.API.NewZlibReader(bytes.NewReader(encodeStdZlib(prevPlain, 6, nil)))
+					z.Read(make([]byte, 100))
+					e = z.Reset(in, nil)
+					rd = z
+				}
+				if e != nil {
+					// Reset reported it: the Reader must now be in that error state
+					p := make([]byte, 64)
+					n, e2 := rd.Read(p)
+					if n != 0 || e2 == nil {
+						out = p[:n]
+						ferr = nil
+						sticky = fmt.Sprintf("Reset onto the failing source returned %v, but the next Read returned (%d, %v): data of the earlier stream or success after a failed Reset", e, n, e2)
+						if e2 != nil {
+							ferr = e2
+						}
+						if n != 0 {
+							bad = "Read after a failed Reset returned bytes of the earlier stream"
+						}
+						return
+					}
+					ferr = e
+					return
+				}
+				rr := drain(rd, gen.ReadSizes(r, style), len(d.B)+1<<20)
+				if rr.panicV != nil {
+					panic(fmt.Sprintf("%v at %s", rr.panicV, rr.stack))
+				}
+				out, ferr, sticky, bad = rr.out, rr.err, rr.sticky, rr.bad
+				return
+			}
 			switch kind {
 			case "flate":
 				rd = c.API.NewFlateReader(in)
